@@ -1656,9 +1656,9 @@ func run(c *core.Ctx) {
 	}
 	var passes []pass
 	if c.Quick() {
-		passes = []pass{{gens.Paths(true), 2, 1, gens.PathData(3)}}
+		passes = []pass{{gens.Paths(true), 2, 1, gens.PathData(3)}, {gens.WidePaths(), 3, 1, gens.WideDocs()}}
 	} else {
-		passes = []pass{{gens.Paths(true), 2, 1, gens.PathData(4)}, {gens.Paths(false), 3, 3, gens.DeepDocs(gens.PathData(3), 2)}}
+		passes = []pass{{gens.Paths(true), 2, 1, gens.PathData(4)}, {gens.Paths(false), 3, 3, gens.DeepDocs(gens.PathData(3), 2)}, {gens.WidePaths(), 3, 1, gens.WideDocs()}}
 	}
 	n := 0
 	for pi, p := range passes {
